@@ -56,6 +56,11 @@ FACTORS = [
     ("log(`a.real`)", ["a.real"]),         # a dotted column name used inside a call
     ("`n:s`", ["n:s"]),                    # a column name containing a colon
     ("{`n:s` + `a b`}", ["n:s", "a b"]),
+    # interactions of categoricals whose main effects are absent: under rank reduction they expand into several
+    # scoped terms (G, H, G:H with different reductions) that do not all contain every factor
+    ("G:H", ["G", "H"]),
+    ("C(G):H", ["G", "H"]),
+    ("A:G:a", ["A", "G", "a"]),
 ]
 LHS = [("", []), ("y ~ ", ["y"]), ("log(y) ~ ", ["y"]), ("`y z` ~ ", ["y z"])]
 
@@ -63,6 +68,8 @@ COLUMNS = {
     "a": [1.0, 2.0, 3.0, 5.0, 7.0, 4.0],
     "b": [2.0, -1.0, 0.5, 3.0, 1.0, 8.0],
     "A": ["x", "y", "z", "x", "y", "z"],
+    "G": ["k", "l", "k", "l", "k", "l"],
+    "H": ["m", "m", "n", "n", "m", "n"],
     "a b": [1.5, 2.5, 0.5, 4.0, 6.0, 3.0],
     "a.real": [9.0, 8.0, 7.0, 5.0, 6.0, 4.0],
     "n:s": [2.0, 4.0, 8.0, 1.0, 3.0, 9.0],
@@ -76,7 +83,7 @@ def frame(cols):
     d = {}
     for k in COLUMNS:  # fixed column order
         if k in cols:
-            d[k] = pd.Series(COLUMNS[k], dtype=object if k == "A" else float)
+            d[k] = pd.Series(COLUMNS[k], dtype=object if k in ("A", "G", "H") else float)
     return pd.DataFrame(d, index=range(6))
 
 
@@ -127,7 +134,7 @@ def drv_required(c, ctx, col):
     full = frame(set(needs) | {"zz"})
     tag = "factors=%s" % [p[0] for p in parts]
     base_repro = ("import pandas as pd; from formulaic import *; f = lambda x, y: x + y; g = lambda x: x * 2; "
-                  "full = pd.DataFrame(%r).astype({%s}); " % (full.to_dict("list"), "'A': object" if "A" in full else ""))
+                  "full = pd.DataFrame(%r).astype({%s}); " % (full.to_dict("list"), ", ".join("%r: object" % k for k in ("A", "G", "H") if k in full)))
     col.sample({"formula": text, "columns_read": needs})
 
     def bad(sig, what, detail):
@@ -228,7 +235,12 @@ def _captured_call(formula, data, probe, vq, fq, log, center):  # noqa: ARG001 -
 
 RES_ROUTES = ["model_matrix(context=dict)", "Formula.get_model_matrix(context=dict)",
               "ModelSpec.from_spec(...).get_model_matrix(context=dict)", "PandasMaterializer(data, context=dict).get_model_matrix",
-              "model_matrix(caller's frame)"]
+              "model_matrix(caller's frame)",
+              # every entry point again with a spec override, and re-use of a fitted spec: the context must be forwarded
+              "model_matrix(context=dict, output='numpy')", "Formula.get_model_matrix(context=dict, output='numpy')",
+              "ModelSpec.from_spec(...).get_model_matrix(context=dict, output='numpy')",
+              "PandasMaterializer(data, context=dict).get_model_matrix(output='numpy')",
+              "fitted spec.get_model_matrix(context=dict)", "fitted spec.get_model_matrix(context=dict, output='numpy')"]
 
 
 def drv_resolution(c, ctx, col):
@@ -296,6 +308,18 @@ def drv_resolution(c, ctx, col):
             res.append(ModelSpec.from_spec(text).get_model_matrix(data, context=context))
         elif route == "PandasMaterializer(data, context=dict).get_model_matrix":
             res.append(PandasMaterializer(data, context=context).get_model_matrix(text))
+        elif route == "model_matrix(context=dict, output='numpy')":
+            res.append(model_matrix(text, data, context=context, output="numpy"))
+        elif route == "Formula.get_model_matrix(context=dict, output='numpy')":
+            res.append(Formula(text).get_model_matrix(data, context=context, output="numpy"))
+        elif route == "ModelSpec.from_spec(...).get_model_matrix(context=dict, output='numpy')":
+            res.append(ModelSpec.from_spec(text).get_model_matrix(data, context=context, output="numpy"))
+        elif route == "PandasMaterializer(data, context=dict).get_model_matrix(output='numpy')":
+            res.append(PandasMaterializer(data, context=context).get_model_matrix(text, output="numpy"))
+        elif route == "fitted spec.get_model_matrix(context=dict)":
+            res.append(model_matrix(text, data, context=context).model_spec.get_model_matrix(data, context=context))
+        elif route == "fitted spec.get_model_matrix(context=dict, output='numpy')":
+            res.append(model_matrix(text, data, context=context).model_spec.get_model_matrix(data, context=context, output="numpy"))
         else:
             res.append(_captured_call(text, data, _probe, context.get("vq"), context.get("fq"), context.get("log"), context.get("center")))
 
@@ -341,6 +365,88 @@ def drv_resolution(c, ctx, col):
     if stray:
         col.violation("resolution-source(stray) :: " + key_tail, dict(detail, variables_by_source=vbs, unexpected_variables=stray),
                       sig="variables-by-source-lists-unused-variable")
+
+
+# ----------------------------------------------------------------------------
+# required variables across sequence mutations of a formula (bounded histories)
+
+HIST_VARS = {"1": set(), "a": {"a"}, "b": {"b"}, "a:b": {"a", "b"}, "log(c)": {"c"}, "d": {"d"}}
+HIST_NEW = ["log(c)", "d"]
+HIST_EVENTS = ([("read",), ("read-spec",)] + [("append", t) for t in HIST_NEW] + [("insert", 0, t) for t in HIST_NEW]
+               + [("setitem", i, t) for i in (0, -1) for t in HIST_NEW] + [("delitem", 0), ("delitem", -1), ("pop",), ("remove-first",),
+                                                                          ("extend", tuple(HIST_NEW)), ("clear",)])
+HIST_INITIAL = ["Formula('a + b')", "Formula(['a', 'b', 'a:b'], _ordering='none')", "Formula('y ~ a + b').rhs"]
+
+
+def drv_histories(c, ctx, col):
+    from formulaic import Formula, ModelSpec
+
+    initial = c.pick(HIST_INITIAL)
+    n = c.upto(ctx["depth"])
+    events = [c.pick(HIST_EVENTS) for _ in range(n)]
+    term = ctx["terms"]  # parsed once: str -> Term (immutable)
+    base = set()
+    if initial == "Formula('a + b')":
+        top = f = Formula("a + b")
+    elif initial.startswith("Formula(['a'"):
+        top = f = Formula(["a", "b", "a:b"], _ordering="none")
+    else:
+        top = Formula("y ~ a + b")
+        f = top.rhs
+        base = {"y"}
+    spec = ModelSpec.from_spec(top)  # unmaterialized: required_variables falls back to the formula's
+    model = [str(t) for t in f]     # the multiset of terms currently in the formula (order is not modelled)
+    done = []
+
+    def check(reader, got):
+        want = set(base).union(*[HIST_VARS[t] for t in model])
+        got = {str(v) for v in got}
+        col.count("reads-checked")
+        if got != want:
+            col.violation("stale-required-variables :: %s :: history=%r :: read via %s" % (initial, done, reader),
+                          {"initial": initial, "history": done, "terms_now": list(model), "got": sorted(got), "want": sorted(want),
+                           "stale": sorted(got - want), "missing": sorted(want - got),
+                           "repro": "replay the history on %s (mutating the right-hand side), reading .required_variables where the history says 'read'" % initial},
+                          sig="required-variables-stale-after-mutation")
+
+    for ev in events + [("read",), ("read-spec",)]:
+        kind = ev[0]
+        if kind in ("delitem", "pop", "remove-first", "setitem") and not model:
+            raise Skip()  # index errors on an empty formula are outside this property
+        done.append(ev)
+        if kind == "read":
+            check("formula", top.required_variables)
+        elif kind == "read-spec":
+            check("unmaterialized ModelSpec(s)", spec.required_variables)
+        elif kind == "append":
+            f.append(term[ev[1]])
+            model.append(ev[1])
+        elif kind == "insert":
+            f.insert(ev[1], term[ev[2]])
+            model.append(ev[2])
+        elif kind == "setitem":
+            model.remove(str(f[ev[1]]))
+            f[ev[1]] = term[ev[2]]
+            model.append(ev[2])
+        elif kind == "delitem":
+            model.remove(str(f[ev[1]]))
+            del f[ev[1]]
+        elif kind == "pop":
+            model.remove(str(f.pop()))
+        elif kind == "remove-first":
+            t = f[0]
+            model.remove(str(t))
+            f.remove(t)
+        elif kind == "extend":
+            f.extend([term[t] for t in ev[1]])
+            model.extend(ev[1])
+        elif kind == "clear":
+            f.clear()
+            model.clear()
+        col.state((initial, tuple(sorted(model)), kind.startswith("read")))
+    if any(e[0] not in ("read", "read-spec") for e in events):
+        col.interesting()
+    col.sample({"initial": initial, "history": [list(e) for e in events]})
 
 
 # ----------------------------------------------------------------------------
@@ -448,6 +554,11 @@ def drv_dot(c, ctx, col):
 
 # ----------------------------------------------------------------------------
 
+def _hist_terms():
+    from formulaic import Formula
+    return {t: Formula([t], _ordering="none")[0] for t in HIST_NEW}
+
+
 def subchecks(tier, seed):
     quick = tier == "quick"
     facs = FACTORS
@@ -468,6 +579,11 @@ def subchecks(tier, seed):
                     "layers": "all 2^3 combinations of {data, context, transforms} per role",
                     "templates": ["NAME", "probe(NAME)", "{NAME + 0}", "NAME(a)", "probe(NAME(a))"], "sides": ["rhs", "lhs"],
                     "entry_points": RES_ROUTES}),
+        Sub("mutation-histories", drv_histories, {"depth": 3 if quick else 4, "terms": _hist_terms()}, shard_depth=3,
+            bounds={"initial": HIST_INITIAL, "events": [list(e) for e in HIST_EVENTS], "max_events": 3 if quick else 4,
+                    "note": "every history of <= max_events events on a SimpleFormula (also the rhs of a structured formula and the "
+                            "formula held by an unmaterialized ModelSpec); required_variables is compared with the union over the "
+                            "terms then present at every read event and after the last event"}),
         Sub("dot", drv_dot, {"lhs_forms": DOT_FORMS, "pool": pool, "max_cols": 3 if quick else 4}, shard_depth=3,
             bounds={"column_pool": pool, "column_lists": "every ordered list of <= %d distinct names" % (3 if quick else 4),
                     "lhs": "every subset of the columns", "lhs_forms": DOT_FORMS + ["'.'", "'~ .'"], "entry_points": DOT_ROUTES}),
